@@ -10,7 +10,8 @@ META = {
                    'sleepers from the barrier\'s own stack and is the only path returning the serial indicator; every '
                    'other arriver blocks on that stack and returns 0; myth_wake_many_from_stack pops all n sleepers '
                    '(spinning on empty) before it pushes any to a run queue; the CAS-pop has a single popper (call graph '
-                   'over all TUs); sleepers push themselves only from the switch callback.',
+                   'over all TUs); sleepers push themselves only from the switch callback.'
+                   ' The initialiser writes every field the operations read (C06.6).',
     'not_decided': 'round separation and exactly-one-serial under every interleaving (schedule exploration)',
     'assumptions': ['at most n_threads participants use the barrier per round (the library exits otherwise)'],
 }
